@@ -88,6 +88,9 @@ def writeLine (frames ws : String) : String :=
 def handle (ws : List String) : Option String :=
   match ws with
   | ["framed.read", _fl, m, v, tbl, evs] => some (readLine m v tbl evs)
+  -- a seventh token describes the write half while reading (short accepts / not-ready only): `writeAll` then
+  -- delivers the whole keep-alive reply whatever the script (C06.write_all_complete), so the answer is unchanged
+  | ["framed.read", _fl, m, v, tbl, evs, _ws] => some (readLine m v tbl evs)
   | ["framed.write", _fl, _m, frames, wsc] => some (writeLine frames wsc)
   | _ => none
 
